@@ -241,6 +241,9 @@ pub fn judge(case: &Case, obs: &Obs) -> (Vec<Violation>, BTreeMap<String, u64>, 
     let mut v: Vec<Violation> = vec![];
     let mut reach: BTreeMap<String, u64> = BTreeMap::new();
     let mut bump = |k: &str, n: u64| *reach.entry(k.to_string()).or_insert(0) += n;
+    if case.params.get("via_bindings").and_then(|x| x.as_bool()).unwrap_or(false) && case.params.get("cli").map_or(true, |c| !c.is_object()) {
+        bump("cases_through_the_binding_interface", 1);
+    }
     let out = match &case.world.out {
         Some(o) => o,
         None => return (v, reach, false),
